@@ -74,7 +74,7 @@ class C10(Check):
     }
     required_probes = [
         "step_with_nonzero_mismatch", "step_with_zero_mismatch", "repeated_eval_without_step", "two_bodies_spread_into_nonzero_field",
-        "overlapping_supports", "reset_eval_into_dirty_field", "dt_ratio_ge_100", "step_before_any_eval", "uniform_flow_eval", "generic_flow_eval",
+        "overlapping_supports", "reset_eval_into_dirty_field", "dt_ratio_ge_100", "step_before_any_eval", "uniform_flow_eval", "generic_flow_eval", "prelude_world_with_other_dx", "non_contiguous_eulerian_fields",
     ]
     tiers = {
         "quick": {"runs": 480, "batch": 6, "timeout": 600},
@@ -112,6 +112,9 @@ class C10(Check):
 
         for reset in (False, True):
             prog["reset"] = reset
+            self.execute(prog, Result())
+        if kind == "prog":
+            prog["padded"] = True
             self.execute(prog, Result())
 
     # ------------------------------------------------------------------ program
@@ -179,7 +182,16 @@ class C10(Check):
                     ops.append({"op": "flow", "sub": prng.sub_seed(rng)})
             else:
                 ops.append({"op": "consume"})
-        return {"dim": dim, "precision": precision, "flow": fi, "reset": reset, "bodies": bodies, "ops": ops}
+        prog = {"dim": dim, "precision": precision, "flow": fi, "reset": reset, "bodies": bodies, "ops": ops}
+        if all(b["kind"] == "prog" for b in bodies) and rng.random() < 0.2:
+            prog["padded"] = True
+        if rng.random() < 0.25:
+            b0 = dict(bodies[0], sub=prng.sub_seed(rng), reset=False)
+            prog["prelude"] = {
+                "dim": dim, "precision": precision, "flow": (fi + 1) % len(FLOW[dim]), "reset": False, "bodies": [b0],
+                "ops": [{"op": "flow", "uniform": [0.8, -0.6, 0.3][:dim]}, {"op": "call", "body": 0}, {"op": "step", "body": 0, "dt": 0.05}, {"op": "forces", "body": 0}, {"op": "consume"}],
+            }
+        return prog
 
     # ------------------------------------------------------------------ bodies
     def _make_body(self, spec, bi, dim, real_t, dx, lengths, forcing, velocity, reset):
@@ -354,6 +366,15 @@ class C10(Check):
         from ..seams import install
 
         install()
+        if program.get("prelude"):
+            # another simulation lived in this process before (other grid spacing, same marker
+            # counts): nothing of it may leak into the objects of the main program
+            res.probe("prelude_world_with_other_dx")
+            self._execute_world(program["prelude"], res)
+            res.log.event("prelude_done")
+        self._execute_world(program, res)
+
+    def _execute_world(self, program, res):
         dim = program["dim"]
         real_t = _real_t(program["precision"])
         eps = float(np.finfo(real_t).eps)
@@ -362,8 +383,17 @@ class C10(Check):
         shape = tuple(fl["shape"])
         dx = real_t(fl["x_range"] / shape[-1])
         lengths = [float(dx) * shape[dim - 1 - ax] for ax in range(dim)]  # x, y, z extents
-        velocity = np.zeros((dim, *shape), dtype=real_t)
-        forcing = np.zeros((dim, *shape), dtype=real_t)
+        if program.get("padded"):
+            # the simulator peer keeps halo-padded storage: the fields handed to the interaction are
+            # interior windows (non-contiguous views) of larger arrays
+            vel_carrier = np.zeros((dim, *[n + 2 for n in shape]), dtype=real_t)
+            forc_carrier = np.zeros((dim, *[n + 4 for n in shape]), dtype=real_t)
+            velocity = vel_carrier[(slice(None), *[slice(1, 1 + n) for n in shape])]
+            forcing = forc_carrier[(slice(None), *[slice(2, 2 + n) for n in shape])]
+            res.probe("non_contiguous_eulerian_fields")
+        else:
+            velocity = np.zeros((dim, *shape), dtype=real_t)
+            forcing = np.zeros((dim, *shape), dtype=real_t)
         reset = bool(program["reset"]) and len(program["bodies"]) == 1
         bodies = [self._make_body(s, i, dim, real_t, dx, lengths, forcing, velocity, reset) for i, s in enumerate(program["bodies"])]
         reset = None  # per body from here on
@@ -542,7 +572,7 @@ class C10(Check):
             res.log.state(dim, program["precision"], b["reset"], nb, kind, b["kind"], b["evals_since_step"], uniform is None, bool(np.any(forcing != 0)))
             res.add_sim("ops", 1)
         res.add_sim("forcing_clock_time", sum(sum(x["dts"]) for x in bodies))
-        res.nontrivial = nontrivial_step
+        res.nontrivial = res.nontrivial or nontrivial_step
 
     # ------------------------------------------------------------------ shrinking
     def repair(self, program):
@@ -554,6 +584,11 @@ class C10(Check):
 
     def simplify(self, program):
         nb = len(program["bodies"])
+        for key in ("prelude", "padded"):
+            if program.get(key):
+                c = copy.deepcopy(program)
+                c.pop(key)
+                yield c
         if nb > 1:
             for drop in range(nb):
                 c = copy.deepcopy(program)
